@@ -1,15 +1,8 @@
 #!/bin/sh
 # setup.sh — offline build of the framework from files on disk: the Coq development
-# (full .vo build), the extraction and the OCaml model runner.  C++ drivers are built
-# by the checks themselves from /repo's current working tree.
+# (full .vo build of every theory file), then per property the extraction of its model
+# modules and its OCaml model runner.  C++ drivers are built by the checks themselves
+# from /repo's current working tree.
 set -e
 cd "$(dirname "$0")"
-cd coq
-coq_makefile -f _CoqProject -o Makefile >/dev/null 2>&1
-timeout 3000 make -j16 2>&1 | tail -5
-cd ..
-python3 -c "
-import sys; sys.path.insert(0,'.')
-from harness import core
-print('model runner:', core.build_model())
-"
+exec python3 harness/setup_all.py
